@@ -92,20 +92,25 @@ def Seg.text : Seg → List Char
 def unseg (l : List Seg) : List Char := l.flatMap Seg.text
 
 /-- expansion of one segment: only a `word` that names an object-like macro changes; `rec` expands
-    the macro's body -/
-def expSeg (defs : Defs) (rec : List Char → List Char) : Seg → List Char
+    the macro's body.  `active` are the macros whose expansion is in progress: a macro is not expanded
+    again inside its own expansion (`#define A A + 1`, cycles A -> B -> A stop after one round) -/
+def expSeg (defs : Defs) (active : List (List Char)) (rec : List (List Char) → List Char → List Char) : Seg → List Char
   | .word w =>
     match defs.find w with
-    | some m => if m.fnLike then w else rec m.body
+    | some m => if m.fnLike then w else if active.contains w then w else rec (w :: active) m.body
     | none => w
   | .str s => s
   | .other c => [c]
 
 /-- expand one line: every word that names an object-like macro is replaced by the expansion of
-    its body (depth-limited by `depth`; acyclic tables never reach the limit). -/
-def expandChars (defs : Defs) : Nat → List Char → List Char
-  | 0, s => s
-  | depth + 1, s => (segment (s.length + 1) s).flatMap (expSeg defs (expandChars defs depth))
+    its body (depth-limited by `depth`; every nesting level adds a macro to `active`, so a depth of
+    one more than the number of definitions is never reached). -/
+def expandChars (defs : Defs) : Nat → List (List Char) → List Char → List Char
+  | 0, _, s => s
+  | depth + 1, active, s => (segment (s.length + 1) s).flatMap (expSeg defs active (expandChars defs depth))
+
+/-- the depth the preprocessor model uses: more than any chain of distinct macros can need -/
+def expandLine (defs : Defs) (s : List Char) : List Char := expandChars defs (defs.length + 1) [] s
 
 /-! ## directives -/
 
@@ -184,7 +189,6 @@ structure St where
 
 def skipping (stack : List Cond) : Bool := stack.any (fun c => !c.met)
 
-def expandDepth : Nat := 64
 
 def errorLine (s : List Char) : List Char :=
   "// ".toList ++ s ++ " [preprocessor error]".toList
@@ -198,7 +202,7 @@ def step (st : St) (d : Dir) (raw : List Char := []) : St :=
   match d with
   | .text s =>
       if skipping st.stack then st
-      else { st with out := st.out ++ [expandChars st.defs expandDepth s] }
+      else { st with out := st.out ++ [expandLine st.defs s] }
   | .ifdef n =>
       let b := st.defs.isDef n
       { st with stack := ⟨b, false, b⟩ :: st.stack }
